@@ -24,17 +24,17 @@ def devA : Dev :=
 def w0 : W :=
   { cfg := { plugs := [], has := [], nodes := pushHost [] ['a', '1'], version := [50] }, clients := [],
     devs := [([65], devA)], nsock := 1 }
-def p1 : PassIn := { now := 1000, acc := 1, con := 0, soe := 0, envs := [] }
-def p2 : PassIn := { now := 2000, acc := 0, con := 0, soe := 0, envs := [{ fd := 1000, rev := 1, rk := 0, data := bstr "on a1\n", cap := 100 }] }
-def p3 : PassIn := { now := 3000, acc := 0, con := 0, soe := 0, envs := [{ fd := 2000, rev := 2, rk := 0, data := [], cap := 100 }] }
+def p1 : PassIn := { now := 1000, acc := 1, con := [0], soe := [0], envs := [] }
+def p2 : PassIn := { now := 2000, acc := 0, con := [0], soe := [0], envs := [{ fd := 1000, rev := 1, rk := 0, data := bstr "on a1\n", cap := 100 }] }
+def p3 : PassIn := { now := 3000, acc := 0, con := [0], soe := [0], envs := [{ fd := 2000, rev := 2, rk := 0, data := [], cap := 100 }] }
 /-- the request is in flight: client 1 waits for one completion, the queue of `A` holds its action -/
 def w3 : W := runPasses w0 [p1, p2, p3]
 /-- the regex engine's answer for the device's reply `OK\n` -/
 def xs4 : List RxCall := [{ pat := 1, subject := bstr "OK\n", answer := some [(0, 3)] }]
-def p4 : PassIn := { now := 4000, acc := 0, con := 0, soe := 0, envs := [{ fd := 2000, rev := 1, rk := 0, data := bstr "OK\n", cap := 100 }] }
+def p4 : PassIn := { now := 4000, acc := 0, con := [0], soe := [0], envs := [{ fd := 2000, rev := 1, rk := 0, data := bstr "OK\n", cap := 100 }] }
 def w3x : W := { w3 with pendingX := xs4 }
 /-- instead of pass 4: nothing happens until the action's five seconds are over -/
-def pLate : PassIn := { now := 9000000, acc := 0, con := 0, soe := 0, envs := [] }
+def pLate : PassIn := { now := 9000000, acc := 0, con := [0], soe := [0], envs := [] }
 
 theorem inv0 : Inv w0 := inv_init w0 rfl (by intro nd hnd; simp [w0] at hnd; subst hnd; rfl) (by decide) (by decide)
 theorem alive3 : Alive w0 [p1, p2, p3] := ⟨by decide +kernel, by decide +kernel, by decide +kernel, trivial⟩
